@@ -11,6 +11,10 @@ reference tree whenever that is provably a pure renaming:
   local that does not occur in the current function when their binding statements are identical up to local names and that match
   is unique both ways.
 
+The same table also undoes pure *re-orientations*: when a function equals its reference version up to local names AND up to the
+order of the operands of comparisons (a < b  vs  b > a, a == b vs b == a) and of multiplications, every such node is flipped back,
+in place, to the orientation it has in the reference tree (rules that read 'amount > limit' need not know every spelling).
+
 Parameters, globals/nonlocals, attribute names and keyword-argument names are never touched; a mapping that would capture an
 existing name is dropped.  Positions (line/column) are unchanged, so reports and the mypy type map still line up.  The table is
 ``sa/refnames.json`` (``python -m sa.alpha --write`` regenerates it from the tree under analysis; it is regenerated after every
@@ -152,16 +156,83 @@ def _shape_of_binding(fn: ast.AST, name: str, all_locals: List[str]) -> Optional
     return type(st).__name__ + ":" + ast.dump(_Canon(mapping).visit(copy.deepcopy(node)), annotate_fields=False, include_attributes=False)
 
 
+_FLIP = {ast.Lt: ast.Gt, ast.Gt: ast.Lt, ast.LtE: ast.GtE, ast.GtE: ast.LtE, ast.Eq: ast.Eq, ast.NotEq: ast.NotEq}
+
+
+def _flippable(n: ast.AST) -> bool:
+    if isinstance(n, ast.Compare):
+        return len(n.ops) == 1 and type(n.ops[0]) in _FLIP
+    return isinstance(n, ast.BinOp) and isinstance(n.op, ast.Mult)
+
+
+def _flip_in_place(n: ast.AST) -> None:
+    if isinstance(n, ast.Compare):
+        n.left, n.comparators[0] = n.comparators[0], n.left
+        n.ops = [_FLIP[type(n.ops[0])]()]
+    elif isinstance(n, ast.BinOp):
+        n.left, n.right = n.right, n.left
+
+
+def oriented(fn: ast.AST, names: List[str]) -> Tuple[str, List[int], List[ast.AST]]:
+    """(hash of the canonical form, flip bits in canonical order, flippable source nodes in the same order).
+
+    Canonical form: locals replaced by their first-binding index, and, bottom-up, the operands of every single-operator comparison and
+    every multiplication sorted by the dump of their (already canonical) subtrees.  Bit i says whether the i-th flippable node (in the
+    breadth-first order of the canonical tree) is written the other way round in the source."""
+    import copy
+
+    originals = [n for n in ast.walk(fn) if _flippable(n)]
+    for i, n in enumerate(originals):
+        n._fid = i  # type: ignore[attr-defined]
+    dup = copy.deepcopy(fn)
+    for n in originals:
+        del n._fid  # type: ignore[attr-defined]
+    dup = _Canon({n: f"L{i}" for i, n in enumerate(names)}).visit(dup)
+    flipped: Dict[int, int] = {}
+
+    def key(x: ast.AST) -> str:
+        return ast.dump(x, annotate_fields=False, include_attributes=False)
+
+    def canon(node: ast.AST) -> None:
+        for child in ast.iter_child_nodes(node):
+            canon(child)
+        fid = getattr(node, "_fid", None)
+        if fid is None or not _flippable(node):
+            return
+        a, b = (node.left, node.comparators[0]) if isinstance(node, ast.Compare) else (node.left, node.right)
+        if key(a) > key(b):
+            _flip_in_place(node)
+            flipped[fid] = 1
+        else:
+            flipped[fid] = 0
+
+    canon(dup)
+    order = [n._fid for n in ast.walk(dup) if getattr(n, "_fid", None) is not None and _flippable(n)]  # type: ignore[attr-defined]
+    for n in ast.walk(dup):
+        if hasattr(n, "_fid"):
+            del n._fid  # type: ignore[attr-defined]
+    h = hashlib.sha256(key(dup).encode()).hexdigest()[:20]
+    return h, [flipped[i] for i in order], [originals[i] for i in order]
+
+
+def _raw_hash(fn: ast.AST) -> str:
+    return hashlib.sha256(ast.dump(fn, annotate_fields=False, include_attributes=False).encode()).hexdigest()[:20]
+
+
 def describe(tree: ast.AST) -> Dict[str, Dict[str, object]]:
     out: Dict[str, Dict[str, object]] = {}
     for qual, fn in _functions(tree):
         names = locals_in_order(fn)
-        if not names:
+        oh, bits, _ = oriented(fn, names)
+        if not names and not bits:
             continue
         out[qual] = {
             "locals": names,
             "hash": hashlib.sha256(_canon_dump(fn, names).encode()).hexdigest()[:20],
             "shapes": {n: hashlib.sha256((_shape_of_binding(fn, n, names) or "").encode()).hexdigest()[:16] for n in names},
+            "ohash": oh,
+            "oflips": "".join(str(b) for b in bits),
+            "raw": _raw_hash(fn),
         }
     return out
 
@@ -205,7 +276,7 @@ def mapping_for(fn: ast.AST, ref: Dict[str, object]) -> Dict[str, str]:
 
 
 def normalise(module: str, tree: ast.AST) -> int:
-    """Rename locals of the module's functions in place according to the reference table; returns the number of renamed locals."""
+    """Rename locals / restore operand order of the module's functions in place according to the reference table; returns the number of changes."""
     ref_mod = table().get(module)
     if not ref_mod:
         return 0
@@ -214,7 +285,28 @@ def normalise(module: str, tree: ast.AST) -> int:
         ref = ref_mod.get(qual)
         if not ref:
             continue
-        mp = mapping_for(fn, ref)
+        if ref.get("raw") == _raw_hash(fn):
+            continue  # unchanged function: nothing to undo
+        cur_names = locals_in_order(fn)
+        ref_names = list(ref["locals"])  # type: ignore[arg-type]
+        mp: Dict[str, str] = {}
+        if "ohash" in ref and len(cur_names) == len(ref_names):
+            oh, bits, nodes = oriented(fn, cur_names)
+            ref_bits = [int(c) for c in str(ref.get("oflips", ""))]
+            if oh == ref["ohash"] and len(bits) == len(ref_bits):
+                # equal up to local names and operand order: restore the reference's operand order, then its names
+                for b, rb, node in zip(bits, ref_bits, nodes):
+                    if b != rb:
+                        _flip_in_place(node)
+                        n += 1
+                mp = {c: r for c, r in zip(cur_names, ref_names) if c != r}
+                used = {x.id for x in ast.walk(fn) if isinstance(x, ast.Name)} | _params(fn)
+                if any(r in used and r not in mp for r in mp.values()) or len(set(mp.values())) != len(mp):
+                    mp = {}
+            else:
+                mp = mapping_for(fn, ref)
+        else:
+            mp = mapping_for(fn, ref)
         if not mp:
             continue
         for node in ast.walk(fn):
